@@ -1082,4 +1082,239 @@ theorem mem_reachFrom_iff {g : GrammarSpec} {r : Reg} {s : Sym}
         · subst ha; simp at hna)
       (by simp) x
 
+/-! ### Registration: productions = registered direct subclasses -/
+
+theorem getAlts_addAlt (alts : List (Nat × List Nat)) (p c a : Nat) :
+    getAlts (addAlt alts p c) a =
+      if a = p then some ((getAlts alts p).getD [] ++ [c]) else getAlts alts a := by
+  induction alts with
+  | nil =>
+    by_cases h : a = p
+    · subst h; simp [addAlt, getAlts]
+    · have : ¬ p = a := fun e => h e.symm
+      simp [addAlt, getAlts, h, this]
+  | cons kv rest ih =>
+    obtain ⟨k, v⟩ := kv
+    by_cases hk : k = p
+    · subst hk
+      by_cases h : a = k
+      · subst h; simp [addAlt, getAlts]
+      · have : ¬ k = a := fun e => h e.symm
+        simp [addAlt, getAlts, h, this]
+    · by_cases hka : k = a
+      · subst hka
+        have : ¬ k = p := hk
+        simp [addAlt, getAlts, this]
+      · simp only [addAlt, getAlts, beq_iff_eq, hk, hka, if_false, ih]
+
+/-- the part of `register_type` on a class that registers the parent and the alternative -/
+def regParent (classes : List ClassDecl) (considered : List Nat) (fuel n : Nat) (r : Reg) : Reg :=
+  match (classes.getD n default).parent with
+  | some p =>
+    let r := regTy classes considered fuel (.cls p) r
+    if (classes.getD p default).abstract then { r with alts := addAlt r.alts p n }
+    else { r with error := true }
+  | none => r
+
+def regFinish (classes : List ClassDecl) (n : Nat) (r : Reg) : Reg :=
+  if (!(classes.getD n default).abstract && (classes.getD n default).fields.isEmpty) then
+    { r with terminals := r.terminals ++ [.cls n] }
+  else { r with nonTerminals := r.nonTerminals ++ [.cls n] }
+
+theorem regTy_cls (classes : List ClassDecl) (considered : List Nat) (fuel n : Nat) (r : Reg) :
+    regTy classes considered (fuel + 1) (.cls n) r =
+      if r.allNodes.contains (.cls n) then r else
+      let r1 := regParent classes considered fuel n { r with allNodes := r.allNodes ++ [.cls n] }
+      let r2 := if (classes.getD n default).abstract then r1
+                else regFields classes considered fuel (classes.getD n default).fields r1
+      regFinish classes n (regSubs classes considered fuel n considered r2) := by
+  rw [regTy]; rfl
+
+/-- Invariant of registration.  `sound`: every registered production is a registered direct
+subclass of the abstract class it is listed under.  `complete`: every registered class (except
+those in `pend`, whose registration is in progress) is listed under its parent if that is abstract. -/
+structure RegInv (classes : List ClassDecl) (pend : List Nat) (r : Reg) : Prop where
+  sound : ∀ a prods p, getAlts r.alts a = some prods → p ∈ prods →
+    (classes.getD p default).parent = some a ∧ (classes.getD a default).abstract = true ∧
+      Sym.cls p ∈ r.allNodes
+  complete : ∀ n p, Sym.cls n ∈ r.allNodes → n ∉ pend → (classes.getD n default).parent = some p →
+    (classes.getD p default).abstract = true → ∃ prods, getAlts r.alts p = some prods ∧ n ∈ prods
+
+/-- what one registration call guarantees -/
+def RegStep (classes : List ClassDecl) (r r' : Reg) : Prop :=
+  (∀ s ∈ r.allNodes, s ∈ r'.allNodes) ∧ ∀ pend, RegInv classes pend r → RegInv classes pend r'
+
+theorem RegStep.refl (classes : List ClassDecl) (r : Reg) : RegStep classes r r :=
+  ⟨fun _ h => h, fun _ h => h⟩
+
+theorem RegStep.trans {classes : List ClassDecl} {a b c : Reg} (h1 : RegStep classes a b)
+    (h2 : RegStep classes b c) : RegStep classes a c :=
+  ⟨fun s hs => h2.1 s (h1.1 s hs), fun pend h => h2.2 pend (h1.2 pend h)⟩
+
+theorem RegStep.of_eq {classes : List ClassDecl} {r r' : Reg} (h1 : r'.allNodes = r.allNodes)
+    (h2 : r'.alts = r.alts) : RegStep classes r r' := by
+  refine ⟨fun s hs => h1 ▸ hs, fun pend h => ⟨?_, ?_⟩⟩
+  · rw [h1, h2]; exact h.sound
+  · rw [h1, h2]; exact h.complete
+
+theorem regParent_step {classes : List ClassDecl} {considered : List Nat} {f n : Nat} {r0 : Reg}
+    (ih1 : ∀ ty r, RegStep classes r (regTy classes considered f ty r))
+    (hn : Sym.cls n ∈ r0.allNodes) :
+    (∀ s ∈ r0.allNodes, s ∈ (regParent classes considered f n r0).allNodes) ∧
+    ∀ pend, RegInv classes (n :: pend) r0 → RegInv classes pend (regParent classes considered f n r0) := by
+  unfold regParent
+  split
+  · rename_i p hp
+    have hstep := ih1 (.cls p) r0
+    dsimp only
+    split
+    · rename_i hab
+      refine ⟨hstep.1, fun pend h => ?_⟩
+      have h' := hstep.2 _ h
+      constructor
+      · intro a prods q hg hq
+        simp only at hg ⊢
+        rw [getAlts_addAlt] at hg
+        split at hg
+        · rename_i hap
+          subst hap
+          cases hg
+          rcases List.mem_append.1 hq with hq | hq
+          · cases hgp : getAlts (regTy classes considered f (.cls a) r0).alts a with
+            | none => rw [hgp] at hq; simp at hq
+            | some l => rw [hgp] at hq; exact h'.sound a l q hgp hq
+          · simp at hq; subst hq; exact ⟨hp, hab, hstep.1 _ hn⟩
+        · exact h'.sound a prods q hg hq
+      · intro m q hm hmp hpar habq
+        simp only at hm ⊢
+        rw [getAlts_addAlt]
+        by_cases hmn : m = n
+        · subst hmn
+          have : q = p := by rw [hp] at hpar; exact (Option.some.inj hpar).symm
+          subst this
+          simp
+        · obtain ⟨prods, hg, hmem⟩ := h'.complete m q hm (by simp [hmn, hmp]) hpar habq
+          split
+          · rename_i hqp; subst hqp; rw [hg]; exact ⟨_, rfl, by simp [hmem]⟩
+          · exact ⟨prods, hg, hmem⟩
+    · rename_i hab
+      refine ⟨hstep.1, fun pend h => ?_⟩
+      have h' := hstep.2 _ h
+      refine ⟨h'.sound, ?_⟩
+      intro m q hm hmp hpar habq
+      by_cases hmn : m = n
+      · subst hmn
+        have : q = p := by rw [hp] at hpar; exact (Option.some.inj hpar).symm
+        subst this
+        exact absurd habq hab
+      · exact h'.complete m q hm (by simp [hmn, hmp]) hpar habq
+  · rename_i hp
+    refine ⟨fun _ h => h, fun pend h => ⟨h.sound, ?_⟩⟩
+    intro m q hm hmp hpar habq
+    by_cases hmn : m = n
+    · subst hmn; rw [hp] at hpar; cases hpar
+    · exact h.complete m q hm (by simp [hmn, hmp]) hpar habq
+
+theorem reg_step (classes : List ClassDecl) (considered : List Nat) : ∀ fuel,
+    (∀ ty r, RegStep classes r (regTy classes considered fuel ty r)) ∧
+    (∀ ts r, RegStep classes r (regTys classes considered fuel ts r)) ∧
+    (∀ fs r, RegStep classes r (regFields classes considered fuel fs r)) ∧
+    (∀ n l r, RegStep classes r (regSubs classes considered fuel n l r)) := by
+  intro fuel
+  induction fuel with
+  | zero =>
+    refine ⟨?_, ?_, ?_, ?_⟩ <;> intros <;> simp only [regTy, regTys, regFields, regSubs] <;>
+      exact RegStep.refl _ _
+  | succ f ih =>
+    obtain ⟨ih1, ih2, ih3, ih4⟩ := ih
+    have hbase : ∀ s r, (∀ n, s ≠ Sym.cls n) → RegStep classes r (regTy.regBase s r) := by
+      intro s r hs; simp only [regTy.regBase]; split
+      · exact RegStep.refl _ _
+      · refine ⟨fun x hx => List.mem_append_left _ hx, fun pend h => ⟨?_, ?_⟩⟩
+        · intro a prods p hg hp
+          obtain ⟨h1, h2, h3⟩ := h.sound a prods p hg hp
+          exact ⟨h1, h2, List.mem_append_left _ h3⟩
+        · intro n p hn
+          have : Sym.cls n ∈ r.allNodes := by
+            rcases List.mem_append.1 hn with hn | hn
+            · exact hn
+            · simp only [List.mem_singleton] at hn
+              exact absurd hn.symm (hs n)
+          exact h.complete n p this
+    refine ⟨?_, ?_, ?_, ?_⟩
+    · intro ty r
+      cases ty with
+      | int => rw [regTy]; exact hbase _ _ (by intro n h; cases h)
+      | float => rw [regTy]; exact hbase _ _ (by intro n h; cases h)
+      | str => rw [regTy]; exact hbase _ _ (by intro n h; cases h)
+      | bool => rw [regTy]; exact hbase _ _ (by intro n h; cases h)
+      | list t => rw [regTy]; exact ih1 _ _
+      | ann t mh => rw [regTy]; exact ih1 _ _
+      | tuple ts => rw [regTy]; exact ih2 _ _
+      | union ts => rw [regTy]; exact ih2 _ _
+      | cls n =>
+        rw [regTy_cls]
+        split
+        · exact RegStep.refl _ _
+        · rename_i hc
+          have hc' : Sym.cls n ∉ r.allNodes := by simpa using hc
+          dsimp only
+          have hpar := regParent_step (considered := considered) (f := f) (n := n)
+            (r0 := { r with allNodes := r.allNodes ++ [.cls n] }) ih1 (by simp)
+          have h01 : RegStep classes r
+              (regParent classes considered f n { r with allNodes := r.allNodes ++ [.cls n] }) := by
+            refine ⟨fun s hs => hpar.1 s (List.mem_append_left _ hs), fun pend h => hpar.2 pend ⟨?_, ?_⟩⟩
+            · intro a prods p hg hp
+              obtain ⟨h1, h2, h3⟩ := h.sound a prods p hg hp
+              exact ⟨h1, h2, List.mem_append_left _ h3⟩
+            · intro m q hm hmp
+              have hmn : m ≠ n := fun e => hmp (by simp [e])
+              have : Sym.cls m ∈ r.allNodes := by
+                rcases List.mem_append.1 hm with hm | hm
+                · exact hm
+                · simp at hm; exact absurd hm hmn
+              exact h.complete m q this (fun hp => hmp (List.mem_cons_of_mem _ hp))
+          have hfin : ∀ r, RegStep classes r (regFinish classes n r) := by
+            intro r; unfold regFinish; split <;> exact RegStep.of_eq rfl rfl
+          refine RegStep.trans ?_ (hfin _)
+          refine RegStep.trans ?_ (ih4 _ _ _)
+          refine RegStep.trans h01 ?_
+          split
+          · exact RegStep.refl _ _
+          · exact ih3 _ _
+    · intro ts r
+      cases ts with
+      | nil => simp only [regTys]; exact RegStep.refl _ _
+      | cons t ts => simp only [regTys]; exact RegStep.trans (ih1 _ _) (ih2 _ _)
+    · intro fs r
+      cases fs with
+      | nil => simp only [regFields]; exact RegStep.refl _ _
+      | cons t ts => obtain ⟨_, t⟩ := t; simp only [regFields]; exact RegStep.trans (ih1 _ _) (ih3 _ _)
+    · intro n l r
+      cases l with
+      | nil => simp only [regSubs]; exact RegStep.refl _ _
+      | cons t ts =>
+        simp only [regSubs]
+        refine RegStep.trans ?_ (ih4 _ _ _)
+        split
+        · exact ih1 _ _
+        · exact RegStep.refl _ _
+
+theorem regInv_analyse (g : GrammarSpec) : RegInv g.classes [] (analyse g).reg := by
+  have := ((reg_step g.classes g.considered (regFuel g)).1 (.cls g.start) {}).2 []
+  apply this
+  constructor
+  · intro a prods p hg; simp [getAlts] at hg
+  · intro n p hn; simp at hn
+
+
+/-- the declared single-inheritance relation is acyclic (always true of Python classes) -/
+def ParentRanked (classes : List ClassDecl) (rank : Nat → Nat) : Prop :=
+  ∀ c p, (classes.getD c default).parent = some p → rank c < rank p
+
+theorem altsRanked_analyse (g : GrammarSpec) {rank : Nat → Nat} (h : ParentRanked g.classes rank) :
+    AltsRanked (analyse g).reg rank := by
+  intro n prods p hg hp
+  exact h p n ((regInv_analyse g).sound n prods p hg hp).1
+
 end GEVerif.Analysis
